@@ -1,5 +1,6 @@
 import HapVerif.Model.Store
 import HapVerif.Proofs.EntityMap
+import HapVerif.Proofs.EntityMapGen
 
 /-! # C20 - saved pairings and the accessory cache survive restart and interrupted saves
 
@@ -182,6 +183,65 @@ theorem C20_excluded_null_value :
       (fun c => pure (setValue c .null))).map (·.value) = .ok .null ∧
     (loadChar String.toUpper tbl0 (serChar cNullValue)).map (·.value) = .ok (.num 10) := by
   decide +kernel
+
+/-! ## The model is the source's own tables (regenerated on every run) -/
+
+/-- **The model's serialiser is the generated table**: for every characteristic object, interpreting the
+    (key, condition, attribute) rows extracted from `to_accessory_and_service_list` yields exactly the entries of
+    `serChar` - same keys, same order, same conditions (`is not None` vs truthiness vs the read permission), same
+    attributes. -/
+theorem C20_gen_serialiser (c : EntityMap.Char) :
+    serByTable Gen.EntityMap.ser c = dictEntries (serChar c) := by
+  have map_emitIf : ∀ (b : Bool) (v : J) (k : String),
+      (emitIf b v).map (fun v => (k, v)) = if b = true then some (k, v) else none := by
+    intro b v k; cases b <;> rfl
+  simp only [serByTable, Gen.EntityMap.ser, dictEntries, List.filter_cons, List.filter_nil, List.filterMap_cons,
+    List.filterMap_nil, condHolds, attrOf, getKey, serChar, map_emitIf, List.any_cons, List.any_nil, Bool.or_false,
+    ne_eq, String.reduceEq, not_true_eq_false, not_false_eq_true, and_self, and_false, false_and, and_true,
+    decide_true, decide_false, ↓reduceIte, Option.map_some, Bool.false_eq_true]
+
+/-- **The model's constructor plumbing is the generated tables**: every attribute `__init__` takes through
+    `_get_configuration` is, in the model, the value of the JSON key that `create_from_dict` forwards under that
+    keyword, else the metadata table's entry of that keyword, else `None` - for every dictionary, table and
+    normaliser; `ev` and `maxLen` are the constants of the source. -/
+theorem C20_gen_constructor (norm : String → String) (tbl : Table) (d : CharD) (v0 : J) :
+    (∀ r ∈ Gen.EntityMap.ctor, r.1 ≠ "iid" → r.1 ≠ "perms" →
+      attrOf (buildChar norm tbl d v0) r.1 = ctorByTable Gen.EntityMap.forward norm tbl d r.2.1) ∧
+    Gen.EntityMap.consts = [("ev", "None"), ("maxLen", "64")] ∧
+    (buildChar norm tbl d v0).ev = .null ∧ (buildChar norm tbl d v0).maxLen = .num 64 ∧
+    (buildChar norm tbl d v0).iid = d.iid ∧ (buildChar norm tbl d v0).perms = d.perms ∧
+    Gen.EntityMap.kwargs0 = ["{'perms': char_data['perms']}"] := by
+  refine ⟨?_, by decide, rfl, rfl, rfl, rfl, by decide⟩
+  intro r hr h1 h2
+  simp only [Gen.EntityMap.ctor, List.mem_cons, List.mem_nil_iff, or_false] at hr
+  rcases hr with rfl | rfl | rfl | rfl | rfl | rfl | rfl | rfl | rfl | rfl | rfl | rfl
+  · exact absurd rfl h1
+  · exact absurd rfl h2
+  all_goals
+    simp only [attrOf, buildChar, ctorByTable, Gen.EntityMap.forward, List.find?, getKey, metaSel, dFormat, dValid, dMin,
+      dMax, Option.bind]
+    first | rfl | (simp only [String.reduceBEq]; rfl) | (simp [String.reduceBEq])
+
+/-- the per-format defaults of the model are `DEFAULT_FOR_TYPE` of the source, and every other format has none -/
+theorem C20_gen_defaults :
+    (∀ r ∈ Gen.EntityMap.defaults, defaultFor (.str r.1) = pyLit r.2) ∧
+    (∀ f : String, f ∉ Gen.EntityMap.defaults.map (·.1) → defaultFor (.str f) = .null) := by
+  constructor
+  · decide
+  · intro f hf
+    simp only [Gen.EntityMap.defaults, List.map_cons, List.map_nil, List.mem_cons, List.mem_nil_iff, or_false, not_or] at hf
+    obtain ⟨h1, h2, h3, h4, h5, h6, h7, h8, h9, h10⟩ := hf
+    unfold defaultFor
+    split <;> simp_all
+
+/-- the remaining guards of the source, as the model has them: `set_value` coerces only for the bool format, a value
+    is applied only when it is not `None`, a link 0 is skipped, the links are emitted only when there are any, and a
+    service takes a fresh id only when the given one is 0 -/
+theorem C20_gen_guards :
+    Gen.EntityMap.coerce = ["self.format == CharacteristicFormats.bool"] ∧
+    Gen.EntityMap.loadGuards = ["char_data.get('value') is not None", "linked_service"] ∧
+    Gen.EntityMap.serviceSerGuards = ["(linked := [service.iid for service in self.linked])"] ∧
+    Gen.EntityMap.serviceIid = ["iid or accessory.get_next_id()"] := by decide
 
 /-! ## The write-through characteristic cache -/
 
